@@ -8,6 +8,7 @@ the operation list) and every sequence of further crashes during resumes (`Reach
 Power loss (no fsync) is out of scope: a crash loses no completed file-system step.
 -/
 import Dawgs.Proofs.C19
+import Dawgs.Model.C19Scrub
 namespace Dawgs.C19.Props
 open Dawgs.C18 Dawgs.C19
 
@@ -199,6 +200,62 @@ theorem resume_refuses_on_source_count_change (db : List (Graph P)) (ident : Ide
           · simp
           · simp [hsrc]
 
+theorem doneSourceOk_get : ∀ (ds : List (Done P)) (gs : List (Graph P)), doneSourceOk ds gs = true →
+    ∀ (j : Nat) (d : Done P) (g : Graph P), ds[j]? = some d → gs[j]? = some g → counts g = (d.nodeCount, d.edgeCount) := by
+  intro ds
+  induction ds with
+  | nil => intro gs _ j d g hd _; simp at hd
+  | cons d0 ds ih =>
+    intro gs h j d g hd hg
+    cases gs with
+    | nil => simp at hg
+    | cons g0 gs =>
+      simp only [doneSourceOk, Bool.and_eq_true, beq_iff_eq] at h
+      cases j with
+      | zero => simp at hd hg; subst hd; subst hg; exact h.1
+      | succ j => exact ih gs h.2 j d g (by simpa using hd) (by simpa using hg)
+
+/-- Changed source of an ALREADY COMPLETED graph: if the source of any graph the checkpoint records as completed
+differs from the recorded pair (node count, relationship count) in AT LEAST ONE of the two dimensions — a node
+added with the relationships unchanged, a relationship added with the nodes unchanged, … — resume never succeeds. -/
+theorem resume_refuses_on_completed_source_change (db : List (Graph P)) (ident : Identity) (fs : FS P) (v : Ckpt P)
+    (hc : fs.get .ckpt = some (.ckpt v)) (j : Nat) (d : Done P) (g : Graph P)
+    (hd : v.done[j]? = some d) (hg : db[j]? = some g)
+    (hne : g.nodes.length ≠ d.nodeCount ∨ g.edges.length ≠ d.edgeCount) :
+    (resume db ident fs).outcome ≠ .ok := by
+  apply resume_refuses_on_source_count_change db ident fs v hc
+  cases hs : sourceOk db v with
+  | false => rfl
+  | true =>
+    unfold sourceOk at hs
+    rw [Bool.and_eq_true] at hs
+    have := doneSourceOk_get v.done db hs.1 j d g hd hg
+    unfold counts at this
+    simp only [Prod.mk.injEq] at this
+    rcases hne with h | h
+    · exact absurd this.1 h
+    · exact absurd this.2 h
+
+/-- Changed source of the graph IN PROGRESS: if its counts differ from the snapshot the checkpoint took, in at
+least one dimension, resume never succeeds. -/
+theorem resume_refuses_on_current_source_change (db : List (Graph P)) (ident : Identity) (fs : FS P) (v : Ckpt P)
+    (hc : fs.get .ckpt = some (.ckpt v)) (c : Cur P) (s : Nat × Nat) (g : Graph P)
+    (hcur : v.current = some c) (hs : c.snapshot = some s) (hg : db[c.index]? = some g)
+    (hne : g.nodes.length ≠ s.1 ∨ g.edges.length ≠ s.2) :
+    (resume db ident fs).outcome ≠ .ok := by
+  apply resume_refuses_on_source_count_change db ident fs v hc
+  unfold sourceOk
+  rw [hcur]
+  simp only [hs, hg]
+  have : (counts g == s) = false := by
+    rw [beq_eq_false_iff_ne]
+    intro h
+    unfold counts at h
+    rcases hne with h' | h'
+    · exact h' (by rw [← h])
+    · exact h' (by rw [← h])
+  simp [this]
+
 /-- Unexpected file: if the directory holds a file that is neither the checkpoint, nor a fragment the
 checkpoint records, nor one of the temp files resume knows, resume never succeeds. -/
 theorem resume_refuses_on_unexpected_file (db : List (Graph P)) (ident : Identity) (fs : FS P) (v : Ckpt P)
@@ -230,6 +287,123 @@ theorem resume_refuses_on_unexpected_file (db : List (Graph P)) (ident : Identit
       · split
         · simp
         · simp [hun]
+
+/-- Foreign files, both directions. In a directory that holds a genuine checkpoint version, no manifest and that
+version's fragments intact, resume succeeds EXACTLY when every file in the directory is the checkpoint, one of the
+three temporaries resume knows (checkpoint temp, manifest temp, the next fragment's temp) or a fragment the
+checkpoint records — a single other regular file anywhere (any name: `*.tmp`, fragment-like beyond the cursor,
+hidden, …) makes it refuse. Directories are not files. -/
+theorem resume_ok_iff_no_foreign_file (db : List (Graph P)) (ident : Identity) (hset : Setting db ident) (v : Ckpt P)
+    (hg : Genuine db ident v) (fs : FS P) (hc : fs.get .ckpt = some (.ckpt v)) (hm : fs.get .manifest = none)
+    (hfr : ∀ f ∈ committed v, fs.get (.frag f.path) = some (.frag f.content)) :
+    (resume db ident fs).outcome = .ok ↔
+      ∀ q, fs.get q ≠ none → q = .ckpt ∨ q ∈ knownTemps ident v ∨ ∃ f ∈ committed v, FPath.frag f.path = q := by
+  constructor
+  · intro hok q hq
+    by_cases h1 : q = FPath.ckpt
+    · exact Or.inl h1
+    · by_cases h2 : q ∈ knownTemps ident v
+      · exact Or.inr (Or.inl h2)
+      · by_cases h3 : ∃ f ∈ committed v, FPath.frag f.path = q
+        · exact Or.inr (Or.inr h3)
+        · exfalso
+          exact resume_refuses_on_unexpected_file db ident fs v hc q hq h1 h2
+            (fun f hf he => h3 ⟨f, hf, he⟩) hok
+  · intro hall
+    have hnd := committed_nodup db ident hset v (hg.shape hset)
+    have notKnown : ∀ q, q ∈ knownTemps ident v → (∀ p, q ≠ FPath.frag p) ∧ (∀ n, q ≠ FPath.stray n) := by
+      intro q hq
+      rcases knownTemps_kinds ident v q hq with h | h | ⟨p, h⟩ <;>
+        (subst h; exact ⟨fun _ e => FPath.noConfusion e, fun _ e => FPath.noConfusion e⟩)
+    have hnear : Near ident v fs := by
+      refine ⟨hc, hm, ?_, ?_, ?_⟩
+      · intro p
+        cases hget : fs.get (.frag p) with
+        | none =>
+          cases hfg : fragGet v p with
+          | none => rfl
+          | some d =>
+            obtain ⟨f, hf, hfp⟩ := fragGet_some_mem v p d hfg
+            have := hfr f hf
+            rw [hfp, hget] at this
+            cases this
+        | some d =>
+          rcases hall (.frag p) (by rw [hget]; simp) with h | h | ⟨f, hf, he⟩
+          · cases h
+          · exact absurd rfl ((notKnown _ h).1 p)
+          · have hp : f.path = p := by injection he
+            rw [← hp, fragGet_of_mem v hnd f hf, ← hfr f hf, hp, hget]
+      · intro n
+        cases hget : fs.get (.stray n) with
+        | none => rfl
+        | some d =>
+          rcases hall (.stray n) (by rw [hget]; simp) with h | h | ⟨f, _, he⟩
+          · cases h
+          · exact absurd rfl ((notKnown _ h).2 n)
+          · cases he
+      · intro p hp
+        rcases hall (.fragTmp p) hp with h | h | ⟨f, _, he⟩
+        · cases h
+        · exact h
+        · cases he
+    rw [resume_near db ident hset v (hg.shape hset) fs hnear]
+
+/-! ### The scrubber's plan cache is unobservable
+
+With scrubbing on, every property is treated according to the plan of its key, memoised per graph under the
+normalised key; a resumed dump starts with an empty cache. -/
+
+/-- a cache holds only what `compute` would produce -/
+def CacheOk {K V : Type} (compute : K → V) (cache : List (K × V)) : Prop := ∀ k v, (k, v) ∈ cache → v = compute k
+
+/-- If the cached plan is computed from the cache key (the normalised key) only, memoisation is unobservable: from
+ANY consistent cache — the one an uninterrupted dump has built up, or the empty one a resumed dump starts with —
+the plans used for any sequence of raw keys are `compute (norm raw)`, independent of which spellings came first. -/
+theorem scrub_plan_cache_unobservable {K V : Type} [BEq K] [LawfulBEq K] (norm : String → K) (compute : K → V) :
+    ∀ (raws : List String) (cache : List (K × V)), CacheOk compute cache →
+      planAll norm compute cache raws = raws.map (fun r => compute (norm r)) := by
+  intro raws
+  induction raws with
+  | nil => intro _ _; rfl
+  | cons raw raws ih =>
+    intro cache hc
+    have hlook : ∀ v, cache.lookup (norm raw) = some v → v = compute (norm raw) := by
+      intro v hv
+      induction cache with
+      | nil => simp at hv
+      | cons e t iht =>
+        rw [List.lookup_cons] at hv
+        by_cases he : norm raw == e.1
+        · rw [he] at hv
+          have hk : norm raw = e.1 := by simpa using he
+          rw [hk]
+          cases hv
+          exact hc e.1 e.2 List.mem_cons_self
+        · have : (norm raw == e.1) = false := by simpa using he
+          rw [this] at hv
+          exact iht (fun k v h => hc k v (List.mem_cons_of_mem _ h)) hv
+    simp only [planAll, List.map_cons]
+    unfold planKey
+    cases hl : cache.lookup (norm raw) with
+    | some v =>
+      simp only
+      rw [hlook v hl, ih cache hc]
+    | none =>
+      simp only
+      rw [ih _ (by
+        intro k v hmem
+        rcases List.mem_cons.mp hmem with h | h
+        · cases h; rfl
+        · exact hc k v h)]
+
+/-- The defective shape is observable: when the stored plan is computed from the raw spelling, the plan used for
+`Description` depends on whether `description` was seen before (uninterrupted dump) or not (resumed dump). -/
+theorem scrub_plan_from_raw_key_observable :
+    let norm : String → String := fun raw => if raw == "Description" then "description" else raw
+    let freeText : String → Bool := fun raw => raw == "description"
+    (planKeyRaw norm freeText (planKeyRaw norm freeText [] "description").2 "Description").1 ≠
+    (planKeyRaw norm freeText [] "Description").1 := by
+  decide
 
 /-- C19 at the strength of properties.jsonl on the file-system model. -/
 def C19_full : Prop :=
